@@ -212,6 +212,7 @@ impl Prop for C15 {
             }
             scn.runs.push(r2);
         }
+        super::dress(&mut scn, rng, true);
         h.check(&mut scn)?;
         Ok(())
     }
